@@ -4,6 +4,7 @@ import (
 	"flag"
 	"fmt"
 	"os"
+	"path/filepath"
 	"strconv"
 	"strings"
 )
@@ -106,6 +107,29 @@ func main() {
 		os.Exit(1)
 	}
 	fmt.Printf("histcheck %s tier=%s VERIF_SEED=%d\n", sub, *tier, seed)
+	// regression histories first: minimised histories of repaired defects, kept in
+	// /verif/regress; a "fixed:" entry in known_findings.txt suppresses nothing, so a
+	// defect that returns is reported from here at once
+	if ms, _ := filepath.Glob(filepath.Join(verifDir(), "regress", prop+"-*.json")); len(ms) > 0 {
+		for _, m := range ms {
+			h := readHistory(m)
+			if v := run(h); v != nil {
+				known := false
+				for _, k := range loadKnown(prop) {
+					if k.Key == v.Key {
+						known = true
+					}
+				}
+				if known {
+					continue
+				}
+				fmt.Printf("%s violated (regression history %s): %s\n  %s\n", prop, filepath.Base(m), v.Key, v.Detail)
+				fmt.Printf("VIOLATION property=%s replay=%s\n", prop, m)
+				os.Exit(1)
+			}
+		}
+		fmt.Printf("%d regression histories hold\n", len(ms))
+	}
 	var rc int
 	switch sub {
 	case "c11":
